@@ -1873,6 +1873,8 @@ TARGETS = [
            locals_={"solver": "isolver"}),
     ]),
     dict(out="SrcOpt", file="inference/optimizer.py", requires=[], funcs=[
+        Fn("get_violated_conditional", "py_get_violated_conditional", [("model", ("list", "int")), ("cost", "int"), ("ignore", ("list", "int"))], cls="Optimizer",
+           state=[("nf_cnf_dict", "es_nf_cnf_dict", ("dict", ("list", ("list", "int"))))], locals_={"violated": ("set", "int")}),
         Fn("remove_supersets", "py_remove_supersets", [("lst_of_sets", ("list", ("set", "int")))], locals_={"filtered": ("list", ("set", "int"))}),
     ]),
     dict(out="SrcCrev", file="inference/c_revision.py", requires=["SrcCond", "SrcOcf"], funcs=[
